@@ -287,6 +287,15 @@ func (c *columnKey) Apply(chunk commit.Chunk, r *commit.Reader) {
 		case commit.Put:
 			value := string(r.Bytes())
 
+			// When a row is re-keyed, its old key must stop resolving to it
+			if old := data[offset]; old != value && fill.Contains(uint32(offset)) {
+				c.lock.Lock()
+				if at, ok := c.seek[old]; ok && at == uint32(r.Offset) {
+					delete(c.seek, old)
+				}
+				c.lock.Unlock()
+			}
+
 			fill[offset>>6] |= 1 << (offset & 0x3f)
 			data[offset] = value
 			c.lock.Lock()
